@@ -164,7 +164,17 @@ fn gen_dag(rng: &mut Rng, contracts: &[ContentAddress], keys: &[Key]) -> Built {
     // CSR in numbering order
     let mut nodes = vec![]; let mut edges: Vec<u16> = vec![]; let mut programs = vec![];
     for lab in &order {
-        let prog = Program(asm::to_bytes(program_of(&kinds[*lab], cins[*lab], contracts)).collect());
+        let mut prog = Program(asm::to_bytes(program_of(&kinds[*lab], cins[*lab], contracts)).collect());
+        // untrusted bytecode: now and then truncated (possibly inside a Push immediate), extended by a lone Push opcode,
+        // given an invalid opcode, or replaced by random bytes
+        if rng.chance(1, 14) {
+            match rng.below(4) {
+                0 => { let k = rng.below(prog.0.len() as u64 + 1) as usize; prog.0.truncate(k); }
+                1 => { prog.0.push(0x01); for _ in 0..rng.below(8) { prog.0.push(rng.next() as u8); } }
+                2 => { let k = rng.below(prog.0.len() as u64 + 1) as usize; prog.0.insert(k, *rng.pick(&[0x00u8, 0xFF, 0x0F, 0x82])); }
+                _ => { prog.0 = (0..rng.range(1, 12)).map(|_| rng.next() as u8).collect(); }
+            }
+        }
         let addr = essential_hash::content_addr(&prog);
         let edge_start = if is_leaf[*lab] { u16::MAX } else { edges.len() as u16 };
         let mut cs: Vec<u16> = ch[*lab].iter().map(|v| num[*v] as u16).collect();
@@ -207,7 +217,32 @@ pub struct GCase {
 
 pub fn key_pool() -> Vec<Key> { vec![vec![1], vec![2], vec![3], vec![i64::MAX], vec![1, i64::MAX], vec![7, 7], vec![]] }
 
+/// Two or three solutions of DIFFERENT contracts that use the same key: one declares it, another computes it in a data
+/// output (every (contract, key) slot still has a single proposer).
+pub fn gen_cross_contract(rng: &mut Rng) -> GCase {
+    let contracts: Vec<ContentAddress> = (0..3).map(|i| ContentAddress([0x30 + i as u8; 32])).collect();
+    let key = rng.pick(&key_pool()).clone();
+    let n = rng.range(2, 3) as usize;
+    let computing = rng.below(n as u64) as usize;
+    let mut preds = vec![]; let mut programs = vec![]; let mut sols = vec![];
+    for i in 0..n {
+        let (kind, muts) = if i == computing {
+            let words: Vec<Word> = essential_types::solution::encode::encode_mutations(&[Mutation { key: key.clone(), value: vec![rng.range(1, 90)] }]).collect();
+            (Kind::LeafData(words), vec![])
+        } else { (Kind::LeafConst(1), vec![Mutation { key: key.clone(), value: vec![rng.range(1, 90)] }]) };
+        let prog = Program(asm::to_bytes(program_of(&kind, 0, &contracts)).collect());
+        let pa = essential_hash::content_addr(&prog);
+        let pred = Predicate { nodes: vec![Node { edge_start: u16::MAX, program_address: pa.clone() }], edges: vec![] };
+        let pr = essential_hash::content_addr(&pred);
+        programs.push((pa, prog.0));
+        preds.push((contracts[i].clone(), pr.clone(), pred));
+        sols.push(Solution { predicate_to_solve: PredicateAddress { contract: contracts[i].clone(), predicate: pr }, predicate_data: vec![], state_mutations: muts });
+    }
+    GCase { preds, programs, sols, state: BTreeMap::new(), collect_all: rng.chance(1, 2), family: "cross_contract", known_class: None }
+}
+
 pub fn gen_case(rng: &mut Rng) -> GCase {
+    if rng.chance(1, 12) { return gen_cross_contract(rng); }
     let contracts: Vec<ContentAddress> = (0..2).map(|i| ContentAddress([0x10 + i as u8; 32])).collect();
     let keys = key_pool();
     let nsol = rng.range(1, 3) as usize;
